@@ -35,6 +35,18 @@ CHECK_DEADLOCK FALSE
 def pipeline_session(sid, g, rng, perms=None, k=2, feedback=False, repeat=False, nonidentity=False,
                      unordered=True, parse_back=True, note=""):
     S = Session(sid, note)
+    if rng.random() < 0.3:
+        # annotations users attach under everyday names (atom numbers of a file, identifiers, weights) and a graph-level note
+        style = rng.choice(["int", "text"])
+        for a in g.nodes:
+            g.nodes[a]["name"] = (a + 1) if style == "int" else f"atom{a}"
+            g.nodes[a]["id"] = str(a)
+            g.nodes[a]["label"] = g.number_of_nodes() - a
+        for a, b in g.edges:
+            g.edges[a, b]["weight"] = 1.5
+            g.edges[a, b]["name"] = f"{a}-{b}"
+        g.graph["title"] = "a note"
+        g.graph["history"] = {"steps": [1, 2]}
     o = S.input(g)
     n = g.number_of_nodes()
     objs = [o]
@@ -193,6 +205,7 @@ def special_molecules():
     # more than a hundred atoms (three-digit indices), unsymmetrical
     out.append(("chain105", M([("O", 0, 0, 0)] + [("C", 0, 0, 0)] * 103 + [("N", 15, 0, 0)], [(i, i + 1, 1) for i in range(104)])))
     out.append(("bigmass", M([("U", 65536, 0, 0), ("U", 65535, 0, 0), ("H", 99999, 1, 0)], [(0, 1, 1), (1, 2, 1)])))
+    out.append(("hugemass", M([("C", 1000000, 0, 0), ("C", 12345678, 2, 0), ("H", 999999, 0, 0)], [(0, 1, 1), (1, 2, 1)])))
     out.append(("2HCl", M([("H", 0, 0, 0), ("Cl", 0, 0, 0), ("H", 0, 0, 0), ("Cl", 0, 0, 0)], [(0, 1, 1), (2, 3, 1)])))
     out.append(("MeNH2.2HCl", M([("C", 0, 0, 0), ("N", 0, 0, 0)] + [("H", 0, 0, 0)] * 5 + [("H", 0, 0, 0), ("Cl", 0, 0, 0), ("Cl", 0, 0, 0), ("H", 0, 0, 0)],
                                 [(0, 1, 1), (0, 2, 1), (0, 3, 1), (0, 4, 1), (1, 5, 1), (1, 6, 1), (7, 8, 1), (9, 10, 1)])))
